@@ -472,6 +472,176 @@ func genClient(repo, out string) error {
 	})
 	fmt.Fprintf(&b, "/-- The mode expression of every CANCEL built in `waitForReplyWithCancel`. -/\ndef cancelModeExprs : List String := %s\n\n", leanStrList(cancelModes))
 
+	// ---- Call / CallProgressive: the API goroutine's skeleton, the sender goroutine -----
+	// skeleton = the calls, sends, closes and go statements of the function body outside
+	// function literals, in source order (only those the model speaks about)
+	skeleton := func(name string) ([]string, *ast.FuncDecl, *token.FileSet, error) {
+		fd, fset, err := need(name)
+		if err != nil {
+			return nil, nil, nil, err
+		}
+		var out []string
+		var walk func(n ast.Node)
+		walk = func(n ast.Node) {
+			ast.Inspect(n, func(n ast.Node) bool {
+				switch x := n.(type) {
+				case *ast.FuncLit:
+					return false
+				case *ast.GoStmt:
+					out = append(out, "go")
+					return false
+				case *ast.SendStmt:
+					out = append(out, "send "+exprText(fset, x.Chan))
+				case *ast.CallExpr:
+					switch t := exprText(fset, x.Fun); t {
+					case "c.Connected", "c.sess.IDGen.Next", "c.expectReply", "c.prepareCallPayloadMessage",
+						"c.waitForReplyWithCancel", "c.prepareCallResultMessage", "c.abortSession", "sendProg":
+						out = append(out, t)
+					case "close":
+						out = append(out, "close "+exprText(fset, x.Args[0]))
+					}
+				case *ast.UnaryExpr:
+					if x.Op == token.ARROW {
+						out = append(out, "recv "+exprText(fset, x.X))
+					}
+				}
+				return true
+			})
+		}
+		walk(fd.Body)
+		return out, fd, fset, nil
+	}
+	callSk, _, _, err := skeleton("Call")
+	if err != nil {
+		return err
+	}
+	cpSk, cpFd, cpFset, err := skeleton("CallProgressive")
+	if err != nil {
+		return err
+	}
+	fmt.Fprintf(&b, "/-- `Call`: the calls, channel operations and go statements of the API goroutine, in source order. -/\ndef callSkeleton : List String := %s\n", leanStrList(callSk))
+	fmt.Fprintf(&b, "/-- `CallProgressive`, likewise. -/\ndef callProgressiveSkeleton : List String := %s\n", leanStrList(cpSk))
+	// the sender goroutine: the go statement whose function literal calls sendProg
+	var sender *ast.FuncLit
+	ast.Inspect(cpFd.Body, func(n ast.Node) bool {
+		gs, ok := n.(*ast.GoStmt)
+		if !ok {
+			return true
+		}
+		fl, ok := gs.Call.Fun.(*ast.FuncLit)
+		if !ok {
+			return true
+		}
+		calls := false
+		ast.Inspect(fl.Body, func(n ast.Node) bool {
+			if ce, ok := n.(*ast.CallExpr); ok && exprText(cpFset, ce.Fun) == "sendProg" {
+				calls = true
+			}
+			return true
+		})
+		if calls {
+			sender = fl
+		}
+		return true
+	})
+	if sender == nil {
+		return fmt.Errorf("CallProgressive: sender goroutine (go func calling sendProg) not found")
+	}
+	var sndModes, sndOps []string
+	sndSelects := len(allSelects(sender.Body))
+	ast.Inspect(sender.Body, func(n ast.Node) bool {
+		switch x := n.(type) {
+		case *ast.SendStmt:
+			what := "?"
+			if u, ok := x.Value.(*ast.UnaryExpr); ok {
+				if cl, ok := u.X.(*ast.CompositeLit); ok {
+					what = exprText(cpFset, cl.Type)
+				}
+			} else if id, ok := x.Value.(*ast.Ident); ok {
+				what = id.Name
+			}
+			sndOps = append(sndOps, "send "+exprText(cpFset, x.Chan)+" "+what)
+		case *ast.ReturnStmt:
+			sndOps = append(sndOps, "return")
+		case *ast.CallExpr:
+			if t := exprText(cpFset, x.Fun); t == "sendProg" || t == "c.prepareCallPayloadMessage" {
+				sndOps = append(sndOps, t)
+			}
+		case *ast.CompositeLit:
+			if exprText(cpFset, x.Type) != "wamp.Cancel" {
+				return true
+			}
+			for _, el := range x.Elts {
+				kv, ok := el.(*ast.KeyValueExpr)
+				if !ok || exprText(cpFset, kv.Key) != "Options" {
+					continue
+				}
+				ce, ok := kv.Value.(*ast.CallExpr)
+				if ok && exprText(cpFset, ce.Fun) == "wamp.SetOption" && len(ce.Args) == 3 && exprText(cpFset, ce.Args[1]) == "wamp.OptMode" {
+					sndModes = append(sndModes, exprText(cpFset, ce.Args[2]))
+				} else {
+					sndModes = append(sndModes, "?"+exprText(cpFset, kv.Value))
+				}
+			}
+		}
+		return true
+	})
+	loopCond := "?"
+	for _, st := range sender.Body.List {
+		if fs, ok := st.(*ast.ForStmt); ok && fs.Cond != nil {
+			loopCond = exprText(cpFset, fs.Cond)
+		}
+	}
+	fmt.Fprintf(&b, "/-- The sender goroutine of `CallProgressive` (the go statement calling `sendProg`): its calls, sends\n    and returns in source order; its loop condition; the number of selects in it (0: its sends are bare,\n    it watches neither the call's return nor Done); the mode expression of every CANCEL it builds. -/\n")
+	fmt.Fprintf(&b, "def progSenderOps : List String := %s\n", leanStrList(sndOps))
+	fmt.Fprintf(&b, "def progSenderLoopCond : String := %s\n", leanStr(loopCond))
+	fmt.Fprintf(&b, "def progSenderSelects : Nat := %d\n", sndSelects)
+	fmt.Fprintf(&b, "def progSenderCancelModes : List String := %s\n", leanStrList(sndModes))
+	kmVal, err := wampStringConst(repo, "CancelModeKillNoWait")
+	if err != nil {
+		return err
+	}
+	fmt.Fprintf(&b, "/-- `wamp.CancelModeKillNoWait`. -/\ndef cancelModeKillNoWait : String := %s\n\n", leanStr(kmVal))
+
+	// ---- SendProgress ------------------------------------------------------------------
+	spFd, spFset, err := need("SendProgress")
+	if err != nil {
+		return err
+	}
+	var spSel []string
+	if ss := allSelects(spFd.Body); len(ss) > 0 {
+		// the outermost select holding the send
+		for _, sel := range ss {
+			cs, err := selectCases(spFset, sel)
+			if err != nil {
+				return fmt.Errorf("SendProgress: %v", err)
+			}
+			for _, c := range cs {
+				if strings.HasPrefix(c, "send ") {
+					spSel = cs
+				}
+			}
+		}
+	}
+	spGate := false
+	ast.Inspect(spFd.Body, func(n ast.Node) bool {
+		if ix, ok := n.(*ast.IndexExpr); ok && exprText(spFset, ix.X) == "c.progGate" {
+			spGate = true
+		}
+		return true
+	})
+	spProg := false
+	ast.Inspect(spFd.Body, func(n ast.Node) bool {
+		if kv, ok := n.(*ast.KeyValueExpr); ok && exprText(spFset, kv.Key) == "wamp.OptProgress" && exprText(spFset, kv.Value) == "true" {
+			spProg = true
+		}
+		return true
+	})
+	fmt.Fprintf(&b, "/-- `SendProgress`: the select holding its send; whether it looks the request up in `c.progGate`;\n    whether the YIELD it builds carries `progress: true`. -/\n")
+	fmt.Fprintf(&b, "def sendProgressSelect : List String := %s\n", leanStrList(spSel))
+	fmt.Fprintf(&b, "def sendProgressGateChecked : Bool := %s\n", leanBool(spGate))
+	fmt.Fprintf(&b, "def sendProgressMarksProgress : Bool := %s\n\n", leanBool(spProg))
+
 	// ---- invocation path ---------------------------------------------------------------
 	fd, fset, err = need("runHandleInvocation")
 	if err != nil {
